@@ -38,14 +38,12 @@ theorem encLE_congr_int (n r : Nat) (v : Int) (h : (r : Int) % 2 ^ (8 * n) = v %
   congr 1
   unfold ofSigned
   have h2 : ((r % 256 ^ n : Nat) : Int) = v % 2 ^ (8 * n) := by
-    rw [Int.natCast_mod, pow256, h]
-  have := congrArg Int.toNat h2
-  simpa using this
+    rw [Int.natCast_emod, pow256, h]
+  rw [← h2]
+  rfl
 
 theorem slice_one (l : List UInt8) (a : Nat) (h : a < l.length) : slice l a (a + 1) = [l.getD a 0] := by
-  unfold slice
-  rw [List.drop_eq_getElem_cons h]
-  simp [List.getD_eq_getElem?_getD, h]
+  simp [slice, List.take_one, List.head?_drop, List.getD_eq_getElem?_getD, h]
 
 theorem setRange_one (l : List UInt8) (a : Nat) (b : UInt8) (h : a < l.length) : setRange l a [b] = l.set a b := by
   unfold setRange
@@ -106,8 +104,16 @@ theorem paths_agree_test (f : Fmt) (hdr data : List UInt8) (s : Nat) (hh : hdr.l
   generalize progLoad f false (hdr ++ data) (s + ETHERNET_HEADER) = r at h
   generalize pyGet f data s = v at h hf
   have : (r = 0) ↔ (v = 0) := by
-    cases f <;> simp [fits, Fmt.width, Fmt.signed, regWidth, fitsS, fitsU] at h hf <;> omega
-  by_cases hv : v = 0 <;> simp [hv, this] <;> omega
+    cases f <;>
+      simp only [fits, Fmt.signed, fitsS, fitsU, Bool.and_eq_true, decide_eq_true_eq, ↓reduceIte, Bool.false_eq_true] at hf <;>
+      simp [Fmt.width, regWidth] at h hf <;> omega
+  by_cases hv : v = 0
+  · have hr : r = 0 := this.mpr hv
+    simp [hv, hr]
+  · have hr : r ≠ 0 := fun h0 => hv (this.mp h0)
+    have h1 : (r != 0) = true := by simpa using hr
+    have h2 : (v != 0) = true := by simpa using hv
+    rw [h1, h2]
 
 /-! ### byte formats: set -/
 
@@ -155,7 +161,7 @@ theorem constReg_congr (k : Int) (n : Nat) (hn : n ≤ 8) : ((constReg k : Nat) 
   unfold constReg ofSigned
   have hp : (0 : Int) < 2 ^ (8 * 8) := Int.pow_pos (by decide)
   rw [Int.toNat_of_nonneg (Int.emod_nonneg _ (by omega))]
-  exact Int.emod_emod_of_dvd _ (Int.pow_dvd_pow_of_le (by omega) (by omega))
+  exact Int.emod_emod_of_dvd _ ⟨2 ^ (8 * 8 - 8 * n), by rw [← Int.pow_add]; congr 1; omega⟩
 
 /-- **`self.out = self.inp` leaves the same frame on both paths** whenever the value read is representable in the
 destination format (formats may differ; the register width is the one `_set` asks for) -/
@@ -285,8 +291,11 @@ theorem py_own_bit (data : List UInt8) (s n : Nat) (b : Bool) (hs : s < data.len
 theorem prog_bit_eq (frame : List UInt8) (a n : Nat) (b : Bool) (ha : a < frame.length) (hn : n < 8) :
     progSetBitConst frame a n b = pySetBit frame a n b ∧ progSetBitRt frame a n b = pySetBit frame a n b := by
   have ⟨_, _, h3, h4, _⟩ := byte_facts' (frame.getD a 0) n hn
-  cases b <;>
-    simp [progSetBitConst, progSetBitRt, progBitOn, progBitOff, pySetBit, stx_one _ _ _ ha, ldx_one _ _ ha, h3, h4]
+  have on : progBitOn frame a n = pySetBit frame a n true := by
+    unfold progBitOn pySetBit; rw [ldx_one _ _ ha, stx_one _ _ _ ha, h3]
+  have off : progBitOff frame a n = pySetBit frame a n false := by
+    unfold progBitOff pySetBit; rw [ldx_one _ _ ha, stx_one _ _ _ ha, h4]
+  cases b <;> simp [progSetBitConst, progSetBitRt, on, off]
 
 /-- **the program's bit write changes only that bit**, for a constant and for a run-time Boolean -/
 theorem prog_own_bit (frame : List UInt8) (a n : Nat) (b : Bool) (ha : a < frame.length) (hn : n < 8) :
